@@ -669,21 +669,41 @@ func kinds() []kindEntry {
 	}
 }
 
-func runEpisodes(r *vlib.Run, o *vlib.Oracle) {
-	ks := append(append(kinds(), moreKinds()...), extraKinds()...) // multi.go, extra.go
+func episodeOpts(ep int) epOpts {
+	// every third episode runs with chain.TrustedTxChecker installed (pool.go), the second corpus episode included,
+	// and every fourth one with compressed UTXO records (compr.go), the third corpus episode included
+	return epOpts{NoCSV: ep%6 == 4, NoSegWit: ep%7 == 5, Pool: ep%3 == 1, Compress: ep%4 == 2}
+}
+
+func runEpisodes(r *Run, o *vlib.Oracle) {
+	nEp := r.N(12, 220)
+	for ep := 0; ep < nEp; ep++ {
+		g := r.Rng.Fork()
+		if episodeOpts(ep).Compress {
+			// compressed records + wide transactions: a failure may kill the process from a goroutine of the real code → child.go
+			runChild(r, childSpec{Mode: "episode", Ep: ep, Sub: g.U64()})
+			continue
+		}
+		runEpisode(r, o, ep, g)
+	}
+}
+
+func runEpisode(r *Run, o *vlib.Oracle, ep int, g *vlib.Rng) {
+	ks := append(append(append(kinds(), moreKinds()...), extraKinds()...), append(poolKinds(), comprKinds()...)...) // multi.go, extra.go, pool.go, compr.go
 	totalW := 0
 	for _, k := range ks {
 		totalW += k.weight
 	}
-	nEp := r.N(12, 220)
 	steps := r.N(45, 70)
-	for ep := 0; ep < nEp; ep++ {
-		g := r.Rng.Fork()
-		opts := epOpts{NoCSV: ep%6 == 4, NoSegWit: ep%7 == 5}
+	{
+		opts := episodeOpts(ep)
 		e := newEpisode(r, o, g, opts)
 		e.grow(101 + g.Intn(8))
 		e.fund()
 		e.grow(1 + g.Intn(3))
+		if opts.Compress {
+			e.widePhase(r.N(5, 8)) // wide transactions spending outputs of wide transactions: long, simultaneous serializations
+		}
 		var terminals []kindEntry
 		run := func(k kindEntry) {
 			if e.dead {
@@ -697,7 +717,7 @@ func runEpisodes(r *vlib.Run, o *vlib.Oracle) {
 			e.judge(k.name, raw, true)
 		}
 		if ep < 3 {
-			// corpus: every kind once, in order, on three different rule sets (all active / no CSV / no segwit for ep 4,5 below)
+			// corpus: every kind once, in order, on three different configurations (plain / pool hook / compressed records)
 			for _, k := range ks {
 				if k.terminal {
 					terminals = append(terminals, k)
@@ -709,6 +729,7 @@ func runEpisodes(r *vlib.Run, o *vlib.Oracle) {
 				}
 			}
 			e.badInputSweep(ep) // multi.go: k = 2..8 inputs × bad signature / key / script at every kind of position
+			e.poolSweep()       // pool.go: a failing script at every position among 2..4 transactions × which of the others the pool knows
 			if len(terminals) > 0 {
 				run(terminals[ep%len(terminals)])
 			}
@@ -731,7 +752,7 @@ func runEpisodes(r *vlib.Run, o *vlib.Oracle) {
 				}
 			}
 		}
-		r.Hit(fmt.Sprintf("episodes(csv=%v,segwit=%v)", !opts.NoCSV, !opts.NoSegWit))
+		r.Hit(fmt.Sprintf("episodes(csv=%v,segwit=%v,pool=%v,compress=%v)", !opts.NoCSV, !opts.NoSegWit, opts.Pool, opts.Compress))
 		e.close()
 	}
 }
@@ -768,7 +789,7 @@ func randScript(g *vlib.Rng) []byte {
 	return s
 }
 
-func directStreams(r *vlib.Run, o *vlib.Oracle) {
+func directStreams(r *Run, o *vlib.Oracle) {
 	g := r.Rng.Fork()
 	// GetBlockReward at and around every halving boundary, and far beyond
 	hs := []uint32{0, 1, 0xffffffff, 0xfffffffe, 64 * 210000, 64*210000 - 1, 64*210000 + 1, 13439999, 13440000}
